@@ -144,6 +144,12 @@ func init() {
 	RegisterSeq("c05.inodes", &SeqSpec{Prop: "C05", Prep: "inofull", Alphabet: c05InodeAlphabet(), After: c05After, AllowImplFail: true})
 	RegisterSeq("c05.tiny", &SeqSpec{Prop: "C05", DiskSize: 1539 + 1 + 10, Alphabet: c05TinyAlphabet(), After: c05After, AllowImplFail: true})
 	Checks["C05"] = C05
+	// a file of 506 blocks of data: its truncation / removal takes the in-transaction path, which runs out of journal
+	// space a few blocks before the end - the rest must still be given back (nobody crashed)
+	RegisterSeq("c05.window", &SeqSpec{Prop: "C05", DiskSize: 3000, Setup: c12WindowSetup, After: c05After,
+		Key: func(w *World) string { w.Probe = &fsx.Probe{Full: 4 << 20}; return w.defaultKey() },
+		Alphabet: []fsx.Op{{K: "SETATTR", H: "root/f", Size: 0}, {K: "SETATTR", H: "root/f", Size: 2*4096 + 5}, {K: "REMOVE", H: "root", N: "f"}, {K: "CREATE", H: "root", N: "g"},
+			{K: "RENAME", H: "root", N: "g", H2: "root", N2: "f"}, {K: "WRITE", H: "root/f", Off: 3 * 4096, Cnt: 10, Pat: 0x71, Stable: 2}, {K: "RESTART"}, {K: "DELETEALL"}}})
 	RegisterSeq("c05.seq", &SeqSpec{Prop: "C05", DiskSize: 2200, Alphabet: c05Alphabet(), After: c05After,
 		Key: func(w *World) string { w.Probe = crashProbe; return w.defaultKey() }})
 }
@@ -159,7 +165,8 @@ func C05(r *report.Report, tier string) {
 	s2 := RunSeq(r, "c05.tiny", depth+1)
 	s3 := RunSeq(r, "c05.inodes", depth-1)
 	s4 := RunSeq(r, "c05.big", depth)
-	r.Extra["searches"] = []*SeqSummary{s1, s2, s3, s4}
+	s5 := RunSeq(r, "c05.window", depth)
+	r.Extra["searches"] = []*SeqSummary{s1, s2, s3, s4, s5}
 	var jobs []crashArg
 	for _, h := range [][]fsx.Op{
 		{{K: "REMOVE", H: "root", N: "big"}},
